@@ -180,6 +180,24 @@ func apply(vm data.VM, o op, label string, zvals map[*data.ZVal]int) string {
 			zvals[zv] = id
 		}
 		return fmt.Sprintf("zval#%d", id)
+	case "RegisterGlobals":
+		// what LoadAndRun does for a file's top-level variables: publish the context's slot as
+		// the global of that name unless one exists already
+		vars := []data.Variable{node.NewVariable(nil, o.Name, 0, nil)}
+		ctx := vm.CreateContext(vars)
+		switch b := vm.(type) {
+		case *ort.VM:
+			b.RegisterGlobalContext(vars, ctx)
+		default:
+			return "n/a"
+		}
+		zv := ctx.GetIndexZVal(0)
+		id, ok := zvals[zv]
+		if !ok {
+			id = len(zvals)
+			zvals[zv] = id
+		}
+		return fmt.Sprintf("reg-zval#%d", id)
 	case "SetFile":
 		vm.SetPhpFileCache("/x/" + o.Name + ".php")
 		return "ok"
@@ -283,6 +301,12 @@ func linearizable(sc scenario, st *state, cache map[string][]string) (bool, stri
 				out := make([]string, n)
 				for i := 0; i < n; i++ {
 					r := get(i)
+					if strings.HasPrefix(r, "reg-zval#") {
+						r = "reg-" + r[len("reg-"):]
+					}
+					if i := strings.Index(r, "zval#"); i >= 0 {
+						r = r[i:]
+					}
 					if strings.HasPrefix(r, "zval#") {
 						id, ok := m[r]
 						if !ok {
@@ -470,10 +494,11 @@ type mstate struct {
 	classes, ifaces, funcs, consts map[string]string
 	globals                        map[string]int
 	files                          map[string]bool
+	nextZ                          int
 }
 
 func newM() *mstate {
-	return &mstate{map[string]string{}, map[string]string{}, map[string]string{}, map[string]string{}, map[string]int{}, map[string]bool{}}
+	return &mstate{map[string]string{}, map[string]string{}, map[string]string{}, map[string]string{}, map[string]int{}, map[string]bool{}, 0}
 }
 
 func (m *mstate) apply(o op, label string) string {
@@ -546,10 +571,19 @@ func (m *mstate) apply(o op, label string) string {
 	case "EnsureGlobal":
 		id, ok := m.globals[o.Name]
 		if !ok {
-			id = len(m.globals)
+			id = m.nextZ
+			m.nextZ++
 			m.globals[o.Name] = id
 		}
 		return fmt.Sprintf("zval#%d", id)
+	case "RegisterGlobals":
+		// the context's own slot gets a fresh identity; it becomes the global only if none exists
+		id := m.nextZ
+		m.nextZ++
+		if _, ok := m.globals[o.Name]; !ok {
+			m.globals[o.Name] = id
+		}
+		return fmt.Sprintf("reg-zval#%d", id)
 	case "SetFile":
 		m.files[o.Name] = true
 		return "ok"
@@ -559,7 +593,7 @@ func (m *mstate) apply(o op, label string) string {
 	panic("model: " + o.Kind)
 }
 
-var allKinds = []string{"AddClass", "AddInterface", "AddFunc", "GetClass", "GetInterface", "GetFunc", "LoadPkg", "SetConstant", "GetConstant", "EnsureGlobal", "SetFile", "GetFile"}
+var allKinds = []string{"AddClass", "AddInterface", "AddFunc", "GetClass", "GetInterface", "GetFunc", "LoadPkg", "SetConstant", "GetConstant", "EnsureGlobal", "RegisterGlobals", "SetFile", "GetFile"}
 var names = []string{"X", "x", "Y"}
 
 func allOps() []op {
@@ -646,7 +680,7 @@ func scenarios(quick bool) []scenario {
 		{{"AddClass", "X"}, {"AddClass", "x"}, {"AddInterface", "X"}, {"GetClass", "X"}, {"GetClass", "x"}, {"LoadPkg", "X"}, {"GetInterface", "X"}},
 		{{"AddFunc", "X"}, {"AddFunc", "Y"}, {"GetFunc", "X"}},
 		{{"SetConstant", "X"}, {"SetConstant", "Y"}, {"GetConstant", "X"}},
-		{{"EnsureGlobal", "X"}, {"EnsureGlobal", "Y"}},
+		{{"EnsureGlobal", "X"}, {"EnsureGlobal", "Y"}, {"RegisterGlobals", "X"}},
 		{{"SetFile", "X"}, {"GetFile", "X"}, {"SetFile", "Y"}},
 		{{"AddClass", "X"}, {"AddFunc", "X"}, {"SetConstant", "X"}, {"EnsureGlobal", "X"}, {"GetClass", "X"}},
 	}
